@@ -768,7 +768,7 @@ def main(chk):
         "functions at namespace scope are not exported by interrogate and are therefore not generated",
         "wrapper signatures in the -oc file are covered by C03/C11, not here",
     ]
-    n = chk.pick(32, 400)
+    n = chk.pick(96, 400)
     cases = []
     for k in range(n):
         cases.append({"id": k, "seed": chk.rng.getrandbits(48), "n": 50, "hosts": 4,
